@@ -14,9 +14,11 @@ from props.native_spec import enc_nl, split_keep, NLTEXT
 
 CODECS = ['utf-8', 'latin-1', 'utf-16', 'utf-16-le', 'utf-32-be', 'ascii']
 TEXTS = ['hello\nworld\n', 'one line\n', 'a\r\nb\r\n', '#.change:\n text\n',
-         '  indented\n\n    more\n', 'café ☃\n', 'x' * 150 + '\ny\n']
+         '  indented\n\n    more\n', 'café ☃\n', 'x' * 150 + '\ny\n',
+         # LF on the first line, CRLF later: first-line detection says unix
+         'x\ny\r\nz\n']
 DIFFS = [b'--- a\n+++ b\n@@ -1 +1 @@\n-old\n+new\n', b'binary\x00\x01\n',
-         b'a\r\nb\r\n', b'#...diff: length=3\n']
+         b'a\r\nb\r\n', b'#...diff: length=3\n', b'l1\nl2\r\nl3\n']
 
 
 class Builder(object):
